@@ -1591,6 +1591,12 @@ impl Vm {
         // waiting exception, so that an error raised by the block itself reports its own site.
         let same_frame = self.active_fiber().frames.len() == handler.frame_count;
         let throw_site = self.active_fiber_mut().error_ip.take();
+        // Where the handler's frame was executing when the exception was raised.
+        let failure_site = if same_frame {
+            throw_site.unwrap_or(self.ip)
+        } else {
+            self.active_fiber().frames[handler.frame_count - 1].ip
+        };
         self.active_fiber_mut()
             .close_upvalues(handler.init_stack_size);
         self.active_fiber_mut()
@@ -1606,7 +1612,7 @@ impl Vm {
             let mut fiber = self.active_fiber_mut();
             let pending = object::PendingReturn {
                 value: exc_object,
-                ip: throw_site.filter(|_| same_frame).unwrap_or(ptr::null()),
+                ip: failure_site,
                 rethrow: true,
                 frame_count: handler.frame_count,
                 handler_depth: fiber.exc_handlers.len(),
